@@ -22,7 +22,7 @@ RULE = ('check: 1-4 model files (valid; syntax error; unknown reference at a kno
         'flag, a declared-parameter generator or a failing file present')
 REQUIRED = {'check_invocations': 300, 'check_mode_pattern': 80, 'check_mode_language': 40, 'check_two_languages_in_one_call': 30, 'check_failures_located': 100, 'generate_invocations': 500, 'bare_flags': 100,
             'dashed_names': 200, 'declared_generators': 100, 'undeclared_rejected': 30, 'missing_mandatory_rejected': 30,
-            'values_starting_with_dash': 50, 'generate_language_pattern': 50,
+            'values_starting_with_dash': 50, 'generate_language_pattern': 50, 'declared_parameter_given_with_empty_or_falsy_value': 50,
             'generate_language_with_own_generator_for_another_target': 30}
 
 GRAMMAR = '''
@@ -186,7 +186,8 @@ def generate_case(ctx, r, tmp, gpath, rep):
     declared = None
     if r.random() < 0.4:
         declared = []
-        for n in r.sample(NAMES, r.randint(1, 3)):
+        declared_src = r.sample(NAMES, r.randint(1, 3))
+        for n in declared_src:
             declared.append(GeneratorParam(name=n.replace('-', '_'), description='p', mandatory=r.random() < 0.5))
         ctx.count('declared_generators')
     # how the language of the model files is found: --grammar, --language, or deduced from the file name; the language may
@@ -225,6 +226,12 @@ def generate_case(ctx, r, tmp, gpath, rep):
                 if v.startswith('-'):
                     ctx.count('values_starting_with_dash')
                 items.append(('val', n, v))
+        if declared and r.random() < 0.35:
+            # a declared (possibly mandatory) parameter given with an empty / falsy-looking value: it IS given
+            k_ = r.randrange(len(declared))
+            items = [it for it in items if it[1].replace('-', '_') != declared[k_].name]
+            items.append(('val', declared_src[k_], r.choice(['', '""', "''", '0', 'False'])))
+            ctx.count('declared_parameter_given_with_empty_or_falsy_value')
         # argv: options and model files interleaved
         argv = ['generate', '--target', 'rec']
         if lang_mode == 'grammar':
